@@ -46,7 +46,7 @@ pub fn exec(op: &str, a: &[String]) -> Option<Reply> {
         }
         ("o.c18", [v, p, q, x, prune]) => {
             let (v, p, q, x, prune) = (parse_value(v)?, parse_path(p)?, parse_path(q)?, parse_value(x)?, pb(prune)?);
-            let (v2, _) = do_insert(&v, &p, &x).ok()?;
+            let (v2, prev) = do_insert(&v, &p, &x).ok()?;
             let mut vr = v.clone();
             let removed = vr.remove(&p, prune);
             Some(Reply::oracle(vec![
@@ -57,6 +57,8 @@ pub fn exec(op: &str, a: &[String]) -> Option<Reply> {
                 show_opt(removed.as_ref()),
                 show_opt(v.get(&p)),
                 show_value(&vr),
+                show_opt(prev.as_ref()),
+                show_opt(vr.get(&p)),
             ]))
         }
         _ => None,
